@@ -380,9 +380,12 @@ def main():
     t0 = time.time()
     scratch = tempfile.mkdtemp(prefix="verif_%s_" % prop)
     atexit.register(lambda: shutil.rmtree(scratch, ignore_errors=True))
-    replay_dir = os.path.join(VERIF, "replays")
+    replay_dir = os.environ.get("VERIF_REPLAY_DIR", os.path.join(VERIF, "replays"))
+    evidence_dir = os.environ.get("VERIF_EVIDENCE_DIR", os.path.join(VERIF, "evidence"))
+    case_cache = os.environ.get("VERIF_CASE_CACHE")       # developer mode (bin/seed-matrix): reuse harness runs across properties
+    no_shrink = os.environ.get("VERIF_NOSHRINK") == "1"
     os.makedirs(replay_dir, exist_ok=True)
-    os.makedirs(os.path.join(VERIF, "evidence"), exist_ok=True)
+    os.makedirs(evidence_dir, exist_ok=True)
 
     violations = []   # (replay_path, suffix)
     known_lines = []
@@ -448,6 +451,8 @@ def main():
                 if rc != 0:
                     hard_errors.append(out[-3000:])
                 all_cases += cs
+            elif case_cache and os.path.exists(os.path.join(case_cache, "%s_%s_%s_%d.json" % (famname, fam.get("param", ""), tier, seed))):
+                all_cases = json.load(open(os.path.join(case_cache, "%s_%s_%s_%d.json" % (famname, fam.get("param", ""), tier, seed))))
             else:
                 # corpus first
                 cdir = os.path.join(VERIF, "corpus", famname)
@@ -472,6 +477,9 @@ def main():
                         if rc != 0:
                             hard_errors.append(out[-3000:])
                         all_cases += cs
+            if case_cache and not args.replay and not hard_errors:
+                os.makedirs(case_cache, exist_ok=True)
+                json.dump(all_cases, open(os.path.join(case_cache, "%s_%s_%s_%d.json" % (famname, fam.get("param", ""), tier, seed)), "w"))
             for he in hard_errors:
                 log("harness error:", he)
                 p = write_replay("harness_%s" % famname, {"property": prop, "kind": "correspondence", "family": famname,
@@ -501,7 +509,7 @@ def main():
             for kind, idxs in (("chk", bad_chk), ("corr", [i for i in bad_corr if i not in bad_chk])):
                 for i in idxs[:6]:
                     case = all_cases[i]
-                    small = shrink(fam, case, kind, binary, scratch) if not args.replay else case
+                    small = shrink(fam, case, kind, binary, scratch) if not (args.replay or no_shrink) else case
                     sig = {"family": famname, "kind": kind}
                     sigfn = fam.get("signature")
                     if sigfn:
@@ -563,7 +571,7 @@ def main():
         "wall_s": round(wall, 2),
         "violations": len(violations),
     }
-    with open(os.path.join(VERIF, "evidence", prop + ".json"), "w") as fh:
+    with open(os.path.join(evidence_dir, prop + ".json"), "w") as fh:
         json.dump(evidence, fh, indent=1)
     for line in known_lines:
         print(line)
